@@ -66,7 +66,7 @@ var impWants = []impWant{
 		funcs: []string{"eventLess", "keys", "cp", "NewIndex", "Index.At"}},
 	{dir: "align", pkg: "align",
 		funcs: []string{"SubstitutionMatrix.Get", "decideOnStep", "traceAlignmentSteps", "Global",
-			"argmax", "traceAlignmentStepsLocal", "Local",
+			"argmax", "traceAlignmentStepsLocal", "Local", "Step.String",
 			"init@pam120.go#0", "init@pam160.go#0", "init@pam250.go#0", "init@blosum45.go#0", "init@blosum62.go#0", "init@blosum80.go#0", "init@levenshtein.go#0"}},
 	{dir: "align", pkg: "alignf", funcs: []string{"SubstitutionMatrix.Symmetrical"}, floatAs: "F"},
 	{dir: "trie", pkg: "trie", funcs: []string{"New", "Trie.Add", "Trie.Has", "Trie.Delete", "Trie.keys", "Trie.ForEach"}, heap: "Trie", valPtr: []string{"forEachStep"}, stops: true},
